@@ -1,17 +1,19 @@
 import Tahoe.Base.DrvUtil
 import Tahoe.Crypto.Derive
 import Tahoe.Crypto.Use
+import Tahoe.Crypto.Objects
 /-! Driver for C17.  One operation per line; bytes as lowercase hex (`-` = empty).
-    sha256 M | sha256d M | sha1 M | hmacstd K M | netstring S
+    pad M | sha256 M | sha256d M | sha1 M | hmacstd K M | netstring S
     th TAG VAL T | tph TAG V1 V2 T | hasher TAG T CHUNK…        (T = `none` or a decimal int)
     f1 <fn> A | f2 <fn> A B                                     (hashutil function names)
     convtag K N SEG CONV | conv K N SEG DATA CONV | hmac TAG DATA | permute PSI SEED
     wcap WK | rcap RK | chk KEY | renew SECRET SI SEED | cancel SECRET SI SEED | dirkey WK RWURI | mutkeys PUB PRIV
     trackers ALLOC FRS FCS SRV… | uptrackers SECRET SI TOTAL ALLOC SRV… | pubwriters SECRET WK SRV/SHNUM… |
+    nodehist SECRET WK (i:WK | w:SRV | r:SRV | c:SRV)… | chkhist SECRET SI (r:SEED | c:SEED)…   → answers joined by `,`
     nativeserver foolscap|http SERVERID TUBID SEED|none PUBKEY|none  → permutationSeed:tubid:leaseSeed:weSeed
     mutaddlease SECRET WK SRV | chkaddlease SECRET SI SRV      (SRV = serverid/leaseSeed/weSeed/maxImmutableShareSize)
     Output: hex fields joined by `:`; `AssertionError` / `ValueError` for the modelled exceptions. -/
-open Tahoe.Drv Tahoe.Crypto.Derive Tahoe.Base.Sha256 Tahoe.Base.NetstringEnc Tahoe.Crypto.Use
+open Tahoe.Drv Tahoe.Crypto.Derive Tahoe.Base.Sha256 Tahoe.Base.NetstringEnc Tahoe.Crypto.Use Tahoe.Crypto.Objects
 
 def parseTrunc (s : String) : Option (Option Int) :=
   if s == "none" then some none else s.toInt?.map some
@@ -79,8 +81,26 @@ def showWriters : Option (List Writer) → String
     ",".intercalate (ws.map (fun w =>
       s!"{w.shnum}={hexOfBytes w.server.serverid}={hexOfBytes w.storageIndex}={hexOfBytes w.we}={hexOfBytes w.renew}={hexOfBytes w.cancel}"))
 
+def parseNodeOp (t : String) : Option NodeOp :=
+  match t.splitOn ":" with
+  | ["i", wk] => do pure (.initFromCap (← bytesOfHex wk))
+  | ["w", srv] => do pure (.getWriteEnabler (← parseServer srv))
+  | ["r", srv] => do pure (.getRenewalSecret (← parseServer srv))
+  | ["c", srv] => do pure (.getCancelSecret (← parseServer srv))
+  | _ => none
+
+def parseCheckerOp (t : String) : Option CheckerOp :=
+  match t.splitOn ":" with
+  | ["r", seed] => do pure (.getRenewalSecret (← bytesOfHex seed))
+  | ["c", seed] => do pure (.getCancelSecret (← bytesOfHex seed))
+  | _ => none
+
+def showAnswers (l : List Ans) : String :=
+  if l.isEmpty then "-" else ",".intercalate (l.map (showOpt "AssertionError"))
+
 def handleOpt : List String → Option String
   | ["sha256", m] => do pure (hexOfBytes (sha256 (← bytesOfHex m)))
+  | ["pad", m] => do pure (hexOfBytes (pad (← bytesOfHex m)))
   | ["sha256d", m] => do pure (hexOfBytes (sha256d (← bytesOfHex m)))
   | ["sha1", m] => do pure (hexOfBytes (sha1 (← bytesOfHex m)))
   | ["hmacstd", k, m] => do pure (hexOfBytes (hmacSha256 (← bytesOfHex k) (← bytesOfHex m)))
@@ -133,6 +153,10 @@ def handleOpt : List String → Option String
       let optB (x : String) : Option (Option (List UInt8)) := if x == "none" then some none else (bytesOfHex x).map some
       let n := nativeServer tr ⟨← bytesOfHex sid, ← bytesOfHex tub, ← optB seed, ← optB pk⟩
       pure s!"{hexOfBytes n.permutationSeed}:{hexOfBytes n.tubid}:{hexOfBytes n.leaseSeed}:{hexOfBytes n.weSeed}"
+  | "nodehist" :: secret :: wk :: ops => do
+      pure (showAnswers ((NodeObj.new (← bytesOfHex secret) (← bytesOfHex wk)).run (← ops.mapM parseNodeOp)).2)
+  | "chkhist" :: secret :: si :: ops => do
+      pure (showAnswers ((CheckerObj.new (← bytesOfHex secret) (← bytesOfHex si)).run (← ops.mapM parseCheckerOp)).2)
   | _ => none
 
 def handle (toks : List String) : String :=
